@@ -9,6 +9,7 @@ import emdfile
 from harness import common, alpha
 
 ATTR_CLASSES = ["Node", "Array", "PointList", "PointListArray", "Custom"]
+DATA = ("node", "array", "pointlist", "pointlistarray", "custom")
 
 
 def gen_custom(r, depth=0):
@@ -30,10 +31,11 @@ def gen_custom(r, depth=0):
 def gen_case(r):
     return {"custom": gen_custom(r), "under": r.choice(["root", "node"]),
             "modes": r.choice([["w"], ["w", "ao"], ["w", "a"], ["o", "appendover"], ["w", "ao", "ao"]]),
-            "child": r.random() < 0.5}
+            "child": r.random() < 0.5, "rooted_attr": r.random() < 0.3}
 
 
 _SUB = {}
+LAST = {"attrs": None}
 
 
 def sub_of(base, tag):
@@ -79,6 +81,17 @@ def run_impl(case):
         root.tree(parent)
     c = build_custom(case["custom"], "c")
     parent.tree(c)
+    keep = []
+    if case.get("rooted_attr"):
+        # an attribute node that ALSO belongs to a tree of its own (e.g. it came from emd.read of another file): it is still
+        # an attribute of this object and is stored with it
+        for k, v in list(vars(c).items()):
+            if isinstance(v, emdfile.Node) and not isinstance(v, emdfile.Root) and not k.startswith("_") and v._root is None:
+                er = emdfile.Root(name="elsewhere")
+                v.name = k
+                er.tree(v)
+                keep.append(er)
+                break
     if case["child"]:
         c.tree(emdfile.Node(name="child"))
     p = common.fresh_path()
@@ -95,13 +108,26 @@ def run_impl(case):
             if ok:
                 from harness import validator
                 why = validator.validate(p, emdfile._PROGRAM_NAME, emdfile._USER_NAME, ())
-                obs.append({"save": mode, "r": {"ok": True}, "valid": why is None, "why": why})
-                raws.append(alpha.raw_file(p)["h5"])
+                raw = alpha.raw_file(p)["h5"]
+                # the body of the Custom node's group in the file (everything that is not a child node), by name
+                g = dict(raw["k"])["r"]
+                if case["under"] == "node":
+                    g = dict(g["k"])["p"]
+                g = dict(g["k"])["c"]
+                body = sorted(([k, o] for k, o in g["k"] if not ("g" in o and o["g"].get("emd_group_type") in DATA)), key=lambda e: e[0])
+                obs.append({"save": mode, "r": {"ok": True}, "valid": why is None, "why": why, "cbody": body})
+                raws.append(raw)
             else:
                 raws.append(None)
     finally:
         if os.path.exists(p):
             os.remove(p)
+    # what the model needs to predict the body: the node-valued attributes in attribute order, each encoded alone by its class
+    attrs = []
+    for k, v in vars(c).items():
+        if isinstance(v, emdfile.Node) and not isinstance(v, emdfile.Root):
+            attrs.append(dict(alpha.node_info(v), n=k))
+    LAST["attrs"] = attrs
     return obs, raws
 
 
@@ -117,5 +143,12 @@ def run_model(drv, obs, raws):
             {"do": "put", "path": "C", "h5": raw},
             {"do": "validate", "path": "C"}]})
         v = r["out"][2] if "out" in r and len(r["out"]) == 3 else {"valid": None, "driver": r}
-        out.append(dict(o, valid=v.get("valid")))
+        mo = dict(o, valid=v.get("valid"))
+        if "cbody" in o:
+            # `Custom.to_h5` in the model (EmdModel.customBody): the bundle `Node.to_h5` wrote, then one re-tagged group per
+            # node-valued attribute
+            own = [e for e in o["cbody"] if e[0] == "metadatabundle"]
+            cb = drv.ask({"op": "custombody", "own": own, "attrs": LAST["attrs"]})
+            mo["cbody"] = sorted(cb["body"], key=lambda e: e[0]) if "body" in cb else cb
+        out.append(mo)
     return out
